@@ -5,7 +5,7 @@
  *   setb i attr v | seti i attr v | setc i attr v | setrgb i attr r g b | desc i attr <hex>
  *   clear i attr | clearall i | copy dst src ow | copyattr dst src attr | clone dst src
  *   equiv i j | equivattr i j attr
- *   newattrs i n (attr val){n}        tickit_pen_new_attrs; val is <hex> for the *_DESC pseudo attributes (n <= 3)
+ *   mkattrs i n (attr val){n}        tickit_pen_new_attrs; val is <hex> for the *_DESC pseudo attributes (n <= 3)
  *   tables                            N_PEN_ATTRS, penattr_type/name/lookup of every attr
  * Observation after every operation:
  *   <ret> |<ev0> <ne> <nd> tok0 … tok11 |<ev1> … |<ev2> … |E rrr rrr rrr
@@ -197,7 +197,7 @@ static void engine_op(int argc, char **argv)
     if(j < 0) { obs("bad-op"); return; }
     obs("%d", tickit_pen_equiv_attr(pens[i], pens[j], atoi(argv[3])));
   }
-  else if(strcmp(op, "newattrs") == 0 && argc >= 3) {
+  else if(strcmp(op, "mkattrs") == 0 && argc >= 3) {
     int n = atoi(argv[2]);
     if(n < 0 || n > 3 || argc != 3 + 2 * n) { obs("bad-op"); return; }
     NAPair p[3];
